@@ -18,7 +18,7 @@ QUICK_MC = ["err1", "badhdr2", "direct", "direrr", "trunc2", "memtight", "live",
             "memstop", "memstop_noraise", "memstop_err", "live_memstop", "tell_cat2", "tell_err1", "failmain_err1", "failmain_direct"]
 ALL_MC = ["ok", "err2", "err1", "badhdr", "badhdr2", "direct", "direrr", "empty", "trunc", "trunc2", "badtail",
           "spur", "timeout", "ff_err", "ff_trunc", "memtight", "live", "live_trunc", "cat2", "cat2_pad0", "cat2_badpad", "cat1_trailpad", "reinit", "reinit_err",
-          "memstop", "memstop_noraise", "memstop_err", "live_memstop", "tell_cat2", "tell_err1", "failmain_err1", "failmain_direct"]
+          "memstop", "memstop_noraise", "memstop_err", "live_memstop", "tell_cat2", "tell_err1", "failmain_err1", "failmain_direct", "failmain_cat2_pad0"]
 
 def model_check(ctx):
     names = QUICK_MC if ctx.quick else ALL_MC
